@@ -154,6 +154,50 @@ func suiteMuxSession(h *H) {
 			h.emit("!muxsession "+fr.name+" "+desc+" seed="+strconv.FormatInt(h.seed, 10), gotOut+" listing-bytes="+strconv.Itoa(len(gotList)), verdict, true)
 			h.stat("muxsession." + fr.name)
 		}
+		// long runs of frames that carry no data (info frames, empty data frames) in front of data frames:
+		// however many there are, the client must read on (a buffered reader gives up after 100 reads
+		// that return nothing — the demultiplexer must never be read through one that does)
+		if len(payload) < 200000 || h.thorough() {
+			for _, kind := range []string{"info-run", "empty-run", "mixed-run"} {
+				var out bytes.Buffer
+				put := func(tag uint8, p []byte) {
+					var hdr [4]byte
+					binary.LittleEndian.PutUint32(hdr[:], uint32(7+uint32(tag))<<24|uint32(len(p)))
+					out.Write(hdr[:])
+					out.Write(p)
+				}
+				rest := payload
+				for len(rest) > 0 {
+					// data frames that end right in front of a single-byte field as often as possible
+					n := h.pick(1, 2, 4, 5, 9, 40, 300)
+					if n > len(rest) {
+						n = len(rest)
+					}
+					if h.rng.Intn(3) == 0 {
+						for k := h.pick(99, 100, 101, 130, 260); k > 0; k-- {
+							switch {
+							case kind == "info-run" || (kind == "mixed-run" && k%2 == 0):
+								put(2, []byte("i"))
+							default:
+								put(0, nil)
+							}
+						}
+					}
+					put(0, rest[:n])
+					rest = rest[n:]
+				}
+				stream := append(append([]byte{}, seed...), out.Bytes()...)
+				gotList, gotOut := runClientList(args, stream)
+				verdict := ""
+				if gotOut != "ok" {
+					verdict = "FAIL re-framed (" + kind + ": 99..260 frames without data in a row) valid server stream: " + gotOut
+				} else if gotList != wantList {
+					verdict = "FAIL listing differs under re-framing " + kind
+				}
+				h.emit("!muxsession "+kind+" "+desc+" seed="+strconv.FormatInt(h.seed, 10), gotOut+" listing-bytes="+strconv.Itoa(len(gotList)), verdict, true)
+				h.stat("muxsession." + kind)
+			}
+		}
 		// error frame at a random stage: must fail with the server's message
 		cut := h.rng.Intn(len(payload) + 1)
 		msg := "gokr-rsync [sender]: something broke " + strconv.Itoa(s) + "\n"
